@@ -1,6 +1,7 @@
 package main
 
 import (
+	"regexp"
 	"bytes"
 	"encoding/json"
 	"fmt"
@@ -34,7 +35,12 @@ type c11In struct {
 	Keys string   `json:"keys,omitempty"`
 	Body string   `json:"body,omitempty"` // the directive's lines (inside the server block)
 	Ops2 string   `json:"shape,omitempty"` // cost cases: the shape of the data-dependent argument (histogram / finding class)
+	// conf cases of the targeted search with composed arguments: the unproved obligation they were made for; a panic
+	// is then named by that site and the (digit-free) panic message, not by the configuration line
+	Site string `json:"site,omitempty"`
 }
+
+var c11DigitsRe = regexp.MustCompile(`[0-9]+`)
 
 func c11FileID(f string) uint64 {
 	if f == "" {
@@ -176,6 +182,13 @@ func c11RunConf(in *c11In) Result {
 			key += " | " + strings.TrimSpace(first[1])
 		}
 		sig = fmt.Sprintf("conf:%s:panic:%s", in.Dir, strings.Join(strings.Fields(key), " "))
+		if in.Site != "" {
+			msg := v
+			if cv != 2 {
+				msg = x
+			}
+			sig = fmt.Sprintf("conf:%s:panic:unproved-obligation %s: %s", in.Dir, in.Site, c11DigitsRe.ReplaceAllString(trunc(strings.TrimPrefix(msg, "panic:"), 80), "N"))
+		}
 	}
 	if len(perkey) > 0 {
 		return Result{Term: cApp("CConfKeys", cList(perkey), cN(cv), cN(cx)), Obs: map[string]interface{}{"validate": trunc(v, 200), "execute": trunc(x, 200), "perkey": perkey},
@@ -409,7 +422,72 @@ func c11Vocab(dir string) []string {
 type c11Target struct {
 	dirs []string
 	lex  []string
+	comp []string // structured arguments composed from the function's own separators (c11Compose)
 	site string
+}
+
+// c11Compose: the function cuts its argument at separators it searches for (strings.Index / LastIndex / HasPrefix
+// of ":" "/" "://" "-" "unix:" ...).  Which bound crosses which depends on the ORDER in which the separators occur
+// in the argument, so the targeted search composes arguments from the function's own separator literals in every
+// relative order: [prefix] atom sep atom [sep atom [sep atom]] over all sequences of 1..3 separators, e.g. for
+// parseUpstream scheme://host:port/path:with:colons, host/a:b, [::1]:80/x:y, unix:/p:q.
+func c11Compose(lits []string) []string {
+	isPunct := func(s string) bool {
+		for _, c := range s {
+			if c > 127 || c == '_' || (c >= '0' && c <= '9') || (c >= 'a' && c <= 'z') || (c >= 'A' && c <= 'Z') {
+				return false
+			}
+		}
+		return s != ""
+	}
+	seen := map[string]bool{}
+	var seps, pres []string
+	add := func(l *[]string, s string, max int) {
+		if !seen[s] && len(*l) < max {
+			seen[s] = true
+			*l = append(*l, s)
+		}
+	}
+	for _, s := range []string{":", "/"} {
+		add(&seps, s, 5)
+	}
+	add(&pres, "", 6)
+	for _, s := range lits {
+		switch {
+		case len(s) <= 3 && isPunct(s) && !strings.ContainsAny(s, " \t#"):
+			add(&seps, s, 5)
+		case len(s) >= 2 && len(s) <= 9 && isPunct(s[len(s)-1:]) && !isPunct(s[:1]) && !strings.ContainsAny(s, " \t#"):
+			add(&pres, s, 6) // "unix:", "srv://", "https://"
+		}
+	}
+	for _, s := range seps {
+		if s == "://" {
+			add(&pres, "http://", 6)
+		}
+	}
+	atoms := [][]string{{"localhost", "8080", "api", "v1"}, {"[::1]", "80", "x", "y"}, {"a", "b", "c", "d"}, {"h", "1-2", "p", "3-4"}}
+	var out []string
+	var rec func(cur string, depth, k int, at []string)
+	for _, pre := range pres {
+		for ai, at := range atoms {
+			if ai >= 2 && pre != "" {
+				continue
+			}
+			rec = func(cur string, depth, k int, at []string) {
+				if depth > 0 {
+					out = append(out, cur)
+				}
+				if depth == 3 {
+					return
+				}
+				for _, sp := range seps {
+					rec(cur+sp+at[depth+1], depth+1, k, at)
+				}
+			}
+			rec(pre+at[0], 0, 0, at)
+		}
+	}
+	return out
 }
 
 func c11Unproved() []c11Target {
@@ -466,6 +544,7 @@ func c11Unproved() []c11Target {
 		}
 		sort.Strings(t.dirs)
 		// string literals of the enclosing function
+		var raw []string
 		fset := token.NewFileSet()
 		if af, err := parser.ParseFile(fset, filepath.Join(repo, o.File), nil, 0); err == nil {
 			for _, decl := range af.Decls {
@@ -477,6 +556,7 @@ func c11Unproved() []c11Target {
 					if bl, ok := n.(*ast.BasicLit); ok && bl.Kind == token.STRING {
 						if s, err := strconv.Unquote(bl.Value); err == nil && len(s) < 24 && !strings.ContainsAny(s, "\n{}\"") {
 							t.lex = append(t.lex, s, s+"x", s+s)
+						raw = append(raw, s)
 							if len(s) > 0 {
 								t.lex = append(t.lex, s[:len(s)-1], s[1:], "x"+s, s[:1])
 							}
@@ -486,6 +566,7 @@ func c11Unproved() []c11Target {
 				})
 			}
 		}
+		t.comp = c11Compose(raw)
 		t.lex = append(t.lex, "", "a", "ab", "abc", "!", "!a", "/", ".", ":", "-", "=")
 		out = append(out, t)
 	}
@@ -595,6 +676,17 @@ func c11Gen(r *Rand, tier string) []interface{} {
 		nRand, dlex := perDir, lex
 		for _, t := range targets {
 			for _, td := range t.dirs {
+				if td == d && len(t.dirs) <= 2 {
+					// systematic: every composed argument as first / second argument and as the argument of a sub-directive
+					for i, c := range t.comp {
+						out = append(out, &c11In{Kind: "conf", Dir: d, Keys: keysPool[0], Site: t.site, Body: d + " " + q(c) + "\n"})
+						out = append(out, &c11In{Kind: "conf", Dir: d, Keys: keysPool[0], Site: t.site, Body: d + " / " + q(c) + "\n"})
+						if len(vocab) > 0 {
+							kw := vocab[i%len(vocab)]
+							out = append(out, &c11In{Kind: "conf", Dir: d, Keys: keysPool[0], Site: t.site, Body: d + " / 127.0.0.1:9 {\n  " + q(kw) + " " + q(c) + "\n}\n"})
+						}
+					}
+				}
 				if td == d {
 					if len(t.dirs) <= 2 {
 						nRand += 12 * perDir
@@ -687,7 +779,7 @@ func c11Gen(r *Rand, tier string) []interface{} {
 func init() {
 	register(&Property{
 		ID: "C11", Imports: "V.Lib V.C11_Model V.C11_Cases", Judge: "judge", Shard: 300,
-		Rule: "(targeted search: for every obligation of this run that lia does not prove and that is not pinned, the directives holding the site get 13x the configurations with the enclosing function's own string literals and their boundary variants as arguments; cost cases: proxy upstream port ranges, each mode in a child process under 2 s / 256 MiB, killed at 6 s / 320 MiB live heap; blocks with 2-3 keys of different shapes carry the per-key outcomes and are held against the executeDirectives model) Dispenser: random token lists (incl. foreign files / non-monotone lines as spliced imports produce) x random operation sequences on the real casketfile.Dispenser vs the model; configurations: for every registered directive, argument counts 0..4 over lexical classes and sub-blocks over the directive's own keyword vocabulary (harvested from its package's case labels), each run through ValidateAndExecuteDirectives in validate and in execute mode under recover + watchdog; non-trivial = >=2 tokens / accepted or mode-dependent configuration; distinct = distinct configuration text",
+		Rule: "(targeted search: for every obligation of this run that lia does not prove and that is not pinned, the directives holding the site get 13x the configurations with the enclosing function's own string literals and their boundary variants as arguments, and every argument composed from the function's own separator literals in every relative order - [prefix] atom sep atom [sep atom [sep atom]], e.g. scheme://host:port/path:with:colons, host/a:b, [::1]:80/x:y, unix:/p:q - as first / second argument and as argument of a sub-directive; cost cases: proxy upstream port ranges, each mode in a child process under 2 s / 256 MiB, killed at 6 s / 320 MiB live heap; blocks with 2-3 keys of different shapes carry the per-key outcomes and are held against the executeDirectives model) Dispenser: random token lists (incl. foreign files / non-monotone lines as spliced imports produce) x random operation sequences on the real casketfile.Dispenser vs the model; configurations: for every registered directive, argument counts 0..4 over lexical classes and sub-blocks over the directive's own keyword vocabulary (harvested from its package's case labels), each run through ValidateAndExecuteDirectives in validate and in execute mode under recover + watchdog; non-trivial = >=2 tokens / accepted or mode-dependent configuration; distinct = distinct configuration text",
 		Gen:    c11Gen,
 		Decode: func(raw json.RawMessage) (interface{}, error) { in := &c11In{}; return in, json.Unmarshal(raw, in) },
 		Run:    c11Run,
